@@ -25,6 +25,7 @@ RULES = {
     "R9.3": "every save(step) in solve has step == self.iteration and follows the increment and all loop-carried writes of that iteration on every path",
     "R9.4": "save / _setup_checkpointing / is_checkpointing_enabled / solver_state / has_full_config write no loop-carried or saved attribute",
     "R9.6": "the restore template agrees in kind with what is saved: a fresh solver's solver_state is the StandardRestore template and Orbax casts every restored leaf to the template leaf's type, so a scalar field annotated `float` (`int`) in the State/Info dataclass is never written from an int (float) expression outside _restore_state_from_checkpoint",
+    "R9.7": "what a save stores is the state the sweep left: on every path, between an iteration's step and the next save (in the loop or the final one after it) a saved attribute is written only by storing a result of that step - never cleared, reset or post-processed before it has been saved",
     "R9.5": "save() snapshots self.solver_state and hands exactly that snapshot, with its own step argument, to checkpoint_manager.save",
 }
 ASSUMPTIONS = [
@@ -172,9 +173,11 @@ def run(ctx: Context, col) -> None:
                     f"statement is not `self.<attr> = <param>.<path>`: {norm_text(rother[0])}", text=norm_text(rother[0]))
         part(_save_placement, ctx, cls, loop, L, col)
         part(_no_state_writes, ctx, cls, L | set(spaths), col)
+        part(_saved_state_untouched, ctx, cls, loop, {k for k in spaths if not k.startswith("<")}, col)
         template_kinds(ctx, cls, col, "R9.6")
     part(_save_body, ctx, col)
     part.finish()
+    col.floor("R9.7", 5)
     col.floor("R9.6", 10)
     col.floor("R9.1", 14)
     col.floor("R9.2", 17)
@@ -230,6 +233,51 @@ def _save_placement(ctx, cls, loop: SolveLoop, L, col):
     col.add("R9.3", construct, loop.file, (bad[1].node.lineno if bad else loop.header.lineno), bad is None,
             f"on all {npaths} paths every in-loop save follows the increment, the step and all loop-carried writes"
             if bad is None else f"path {fmt_path(bad[0])}: {bad[2]}", text="save placement in iteration")
+
+
+def _saved_state_untouched(ctx, cls, loop: SolveLoop, saved: set, col, rule="R9.7"):
+    """R9.7: no destructive write of saved state between a step and the save that records it."""
+    construct = f"{cls.name}.solve"
+    step_locals = set()
+    for n in loop.cfg.stmts():
+        if loop.reaches_step(n) and isinstance(n.ast, ast.Assign):
+            for t in n.ast.targets:
+                step_locals |= {x.id for x in ast.walk(t) if isinstance(x, ast.Name)}
+
+    def is_store(ev):
+        a = ev.node.ast
+        return isinstance(a, ast.Assign) and len(a.targets) == 1 and is_self_attr(a.targets[0]) and isinstance(a.value, ast.Name) \
+            and a.value.id in step_locals
+
+    bad = None
+    npaths = 0
+    body = list(loop.body_paths())
+    post = [q for q in loop.post_loop_paths() if q[-1][0] is not loop.cfg.raise_exit]
+    for _kind, p in body:
+        ev_p = loop.events(p)
+        for q in [[]] + post:
+            npaths += 1
+            evs = ev_p + (loop.events(q) if q else [])
+            seen_step = False
+            dirty = None
+            for e in evs:
+                if e.kind == "STEP":
+                    seen_step, dirty = True, None
+                elif e.kind == "SAVE":
+                    if seen_step and dirty is not None and bad is None:
+                        bad = (p + q, dirty, e)
+                    # what follows this save belongs to the next save (if any)
+                    dirty = None
+                elif e.kind in ("WRITE", "TEST") and seen_step and (e.attrs & saved) and not is_store(e):
+                    if e.attrs & saved - {SolveLoop.COUNTER}:
+                        dirty = dirty or e
+        if bad:
+            break
+    col.add(rule, construct, loop.file, (bad[1].node.lineno if bad else loop.header.lineno), bad is None,
+            f"on all {npaths} step-to-save paths saved state is only written by storing the step's results" if bad is None else
+            f"path {fmt_path(bad[0])}: line {bad[1].node.lineno} (`{stmt_text(bad[1].node)[:70]}`) overwrites saved {sorted(bad[1].attrs & saved)} after the step "
+            f"and before the save at line {bad[2].node.lineno}: the checkpoint labelled with this iteration does not hold the state of this iteration",
+            text="saved state untouched before save")
 
 
 CKPT_METHODS = ["save", "_setup_checkpointing", "is_checkpointing_enabled", "solver_state",
